@@ -12,7 +12,7 @@ Decided structural clauses (that the manifest is right for every program is NOT 
                 for (per-walker coverage + catch-all check) and looks at every decorator, not only the first
   6 TEMPLATE    the manifest template names package, binary/lib target, edition and an own [workspace]
 """
-from engines import (AST, all_string_constants, arm_regions, backward_slice, bearing, blocks_dominated_by_edge,
+from engines import (fmt_pieces, AST, all_string_constants, arm_regions, backward_slice, bearing, blocks_dominated_by_edge,
                      body_and_closures, callee_generic, callee_name, const_str, field_is_bearing, fn_fmt_templates,
                      iter_operands_rv, op_place, place_fields, postdominators, primary_dispatch, quote_paths,
                      resolve_str, short, walker_check)
@@ -41,6 +41,7 @@ def run(facts, rep, tier):
     depguard(F, rep, gc)
     declarable(F, rep, gc)
     flagsfinal(F, rep)
+    scanorder(F, rep)
     scanners(F, rep)
     template(F, rep, gc)
 
@@ -94,6 +95,27 @@ FIXED_DEPS = {
 }
 
 
+def const_text(f, o, depth=6):
+    """Raw text of the constant an operand denotes (follows copies / borrows of single-assignment temporaries)."""
+    for _ in range(depth):
+        if "c" in o:
+            return o["c"]
+        pl = op_place(o)
+        if pl is None or any(e[0] != "deref" for e in pl["p"]):
+            return None
+        d = f.single_def(pl["l"])
+        if d is None or d[2] != "assign":
+            return None
+        rv = d[3]
+        if rv["r"] in ("use", "cast"):
+            o = rv["o"]
+        elif rv["r"] in ("ref", "cfd"):
+            o = {"cp": rv["p"]}
+        else:
+            return None
+    return None
+
+
 def depguard(F, rep, gc):
     pdom = postdominators(gc)
     pushes = []
@@ -119,6 +141,10 @@ def depguard(F, rep, gc):
                     v = resolve_str(gc, o2)
                     if v and "=" in v:
                         txt = v
+                    raw = const_text(gc, o2)
+                    pcs = fmt_pieces(raw) if raw else None
+                    if pcs and "=" in "".join(pcs):
+                        txt = "".join(pcs)       # format!("name = {{ .. }}", ..) template
         if txt:
             pushes.append((bi, t, txt))
     rep.floor("DEPGUARD", "fixed dependency lines pushed in generate_cargo_toml", len(pushes), 4)
@@ -169,6 +195,28 @@ def depguard(F, rep, gc):
                             "that needs the crate can be given a manifest without it" % (crate, sorted(fields),
                                                                                          sorted(allowed)),
                             file=gc.file, line=t.get("ln"), fn=gc.path))
+    # ADDEDSYNC: `added_crates.insert("x")` records that a line for x HAS been written; the rust:: import loop skips
+    # recorded crates. So every path to such an insert must pass through a push of a dependency line for x.
+    n_ins = 0
+    for bi, t in gc.calls():
+        g = callee_generic(t) or ""
+        if not (g.endswith("::insert") and "HashSet" in g):
+            continue
+        name = resolve_str(gc, t["args"][1]) if len(t["args"]) > 1 else None
+        if name is None:
+            continue
+        n_ins += 1
+        via = {pb for (pb, _, txt) in pushes if txt.split("=")[0].strip() == name}
+        ok = bool(via) and bi not in gc.reachable(0, avoid=via)
+        rep.oblige("DEPGUARD", "recorded-only-if-written:%s@%s" % (name, n_ins), ok,
+                   sample={"rule": "DEPGUARD", "recorded": name, "line": t.get("ln"),
+                           "every_path_pushes_its_line": ok})
+        if not ok:
+            rep.add(Finding("DEPGUARD", "DEPGUARD|recorded-without-line|%s" % name,
+                            "generate_cargo_toml records `%s` as already declared on a path that has not pushed a "
+                            "`%s = ...` line: a later `import rust::%s` is then skipped and the manifest ends up "
+                            "without the crate" % (name, name, name), file=gc.file, line=t.get("ln"), fn=gc.path))
+    rep.floor("DEPGUARD", "crates recorded as already declared", n_ins, 4)
     for crate in FIXED_DEPS:
         ok = crate in seen
         rep.oblige("DEPGUARD", "present:" + crate, ok)
@@ -236,6 +284,31 @@ def flagsfinal(F, rep):
                             "parsed modules) and hands the resulting flags to the manifest generator: a dependency "
                             "module that uses the feature gets `use`/paths in its generated file but no manifest "
                             "entry" % n, file=pp.file, line=pp.line, fn=pp.path))
+
+
+def scanorder(F, rep):
+    """SCANORDER — prepare_project reads the feature flags (IrCodegen::needs_*) only after every scan_for_* has run:
+    scanners set each other's flags as side effects (scan_for_web implies serde and tokio), so a flag read before a
+    later scan is stale."""
+    pp = F.one_fn("cli::commands::prepare_project")
+    if pp is None:
+        return
+    reads = [(bi, (callee_name(t) or "").split("::")[-1]) for bi, t in pp.calls()
+             if (callee_name(t) or "").split("::")[-1].startswith("needs_") and "IrCodegen" in (callee_name(t) or "")]
+    scans = [(bi, (callee_name(t) or "").split("::")[-1]) for bi, t in pp.calls()
+             if (callee_name(t) or "").split("::")[-1].startswith("scan_for_")]
+    rep.floor("SCANORDER", "flag reads in prepare_project", len(reads), 3)
+    rep.floor("SCANORDER", "scan calls in prepare_project", len(scans), 3)
+    for rb, rn in reads:
+        late = sorted({sn for sb, sn in scans if sb in pp.reachable(rb) and sb != rb})
+        ok = not late
+        rep.oblige("SCANORDER", rn, ok, sample={"rule": "SCANORDER", "flag": rn, "scans_that_can_run_after_the_read": late})
+        if not ok:
+            rep.add(Finding("SCANORDER", "SCANORDER|prepare_project|%s" % rn,
+                            "prepare_project reads %s() while %s can still run afterwards: a flag set by that scan "
+                            "(scan_for_web also turns on serde and tokio) is missing from the manifest although the "
+                            "emitter, which rescans, writes the matching `use` lines" % (rn, ", ".join(late)),
+                            file=pp.file, line=pp.line, fn=pp.path))
 
 
 SCANNER_WALKERS = [
